@@ -260,7 +260,7 @@ func constOrEmpty(v ssa.Value) string {
 }
 
 func checkC10(c *Ctx, r *Report) {
-	r.Rules = []string{"F12 signed bytes are the stored bytes (deb debsign, deb dpkg-sig, apk, rpm)", "F12 signature member names", "D7 signature type validated before signing", "signer installed iff configured (rpm)", "E4 signing failures are typed and unwrap", "K-key-read keys are read on every signing call", "E4-wrap errors formatted on signing paths stay in the chain (%w)", "K-settings-ro no packager stores into a signature section", "key-S-get-self Config.Get copies each key id from itself (imported from C13)", "pass-F15-passphrase passphrase precedence per format (imported from C16)"}
+	r.Rules = []string{"F12 signed bytes are the stored bytes (deb debsign, deb dpkg-sig, apk, rpm)", "F12 signature member names", "D7 signature type validated before signing", "signer installed iff configured (rpm)", "E4 signing failures are typed and unwrap", "K-key-read keys are read on every signing call", "E4-wrap errors formatted on signing paths stay in the chain (%w)", "K-settings-ro no packager stores into a signature section", "key-S-get-self Config.Get copies each key id from itself (imported from C13)", "pass-F15-passphrase passphrase precedence per format (imported from C16)", "K-signer-entity the key handed to the OpenPGP signer is the entity the key reader returned (its primary key, no substitute)", "E4-fresh a signing failure returned is built where the failure happens (no failure fished out of the chain with errors.As)", "F12-apk-name-verbatim the apk key name is used as written"}
 	r.Explanation = "Value-identity and typed-error rules over go/ssa. (F12) deb: the three byte slices handed to the signing function are the very SSA values written as the bodies of the ar members debian-binary, control.tar.gz and the data member, and they reach io.MultiReader in that order; the signature member is named \"_gpg\"+<type returned by the signer>; the dpkg-sig manifest measures each of the same three values (md5, sha1 and size of one parameter) and names each line with the name the member is stored under; apk: the digest handed to the signer is the value returned by the call that wrote the control segment, and the segments are concatenated signature, control, data with those same buffers; rpm: a signer is installed exactly behind the key-file / callback tests and the callback adapter hands the data through unchanged. (D7) with an invalid debsign type no signer call is live. (E4) every function through which a signing error leaves a packager — including the closures handed to rpmpack — returns either nil or a *nfpm.ErrSigningFailure on every path, and that type has an Unwrap() error method returning the wrapped error. Cryptographic validity is not analysed."
 	r.Explanation += " (K-key-read) every signing entry point of internal/sign must-reaches the read of the key file. (E4-wrap) on the signing paths every fmt.Errorf has at least as many %w verbs as error arguments."
 	r.Explanation += " (K-settings-ro) no store in a packager package is rooted at a field of a signature section of the Info. (key-S-get-self) imported from C13."
@@ -844,6 +844,16 @@ func checkAPKSigning(c *Ctx, r *Report, pa *provAnalysis) {
 			p := pa.Of(st.Val)
 			if p.has("const:.SIGN.RSA.%s") && (p.has("Info.Overridables.APK.Signature.KeyName") && p.has("const:.rsa.pub")) {
 				okName = true
+				// ... and from nothing that rewrites it: apk looks the public key
+				// up under exactly this name
+				var rew []string
+				for _, a := range p.list() {
+					if strings.HasPrefix(a, "call:") && a != "call:fmt.Sprintf" && a != "call:net/mail.ParseAddress" {
+						rew = append(rew, a)
+					}
+				}
+				r.Check(len(rew) == 0, "F12-apk-name-verbatim", "apk: the key name in the signature member is the configured name (or the maintainer's address) as written", c.instrPos(st),
+					fmt.Sprintf("the member name passes through %v: apk verifies with /etc/apk/keys/<name>, so a rewritten name points at a key that is not there (derives from {%s})", rew, p.String()))
 			}
 		})
 	}
@@ -1205,6 +1215,8 @@ func checkTypedFailures(c *Ctx, r *Report, pa *provAnalysis) {
 	r.Count("errorf_with_error_args_on_signing_paths", nw)
 	checkSignerReaderOnce(c, r, scopeW)
 	checkPGPConfigFields(c, r)
+	checkSignerIsTheKeyRead(c, r)
+	checkFailureBuiltFresh(c, r)
 	// the signature-member write failure in deb.Package is typed as well
 	if pk := c.PackagerByFormat("deb"); pk != nil {
 		for _, m := range arMembers(c, pk.Package) {
@@ -1461,4 +1473,117 @@ func sliceSequences(v ssa.Value, depth int) [][]ssa.Value {
 		return out
 	}
 	return nil
+}
+
+// checkSignerIsTheKeyRead (K-signer-entity): the key that signs is the one the
+// key reader selected - the entity it returned, or that entity's primary
+// private key read from the field. A key picked in the signing function itself
+// (the first subkey that can sign, ...) bypasses the reader's checks of what
+// the key may be used for.
+func checkSignerIsTheKeyRead(c *Ctx, r *Report) {
+	n := 0
+	for _, fn := range c.ModFuncs {
+		if c.funcPkgPath(fn) != modPath+"/internal/sign" {
+			continue
+		}
+		forEachInstr(fn, func(in ssa.Instruction) {
+			call, ok := in.(*ssa.Call)
+			if !ok {
+				return
+			}
+			o := calleeObj(call)
+			if o == nil || o.Pkg() == nil || !strings.Contains(o.Pkg().Path(), "openpgp") {
+				return
+			}
+			idx := -1
+			switch o.Name() {
+			case "Encode": // clearsign.Encode(w, privateKey, config)
+				idx = 1
+			case "ArmoredDetachSign", "DetachSign", "DetachSignText", "ArmoredDetachSignText": // (w, signer, message, config)
+				idx = 1
+			default:
+				return
+			}
+			if idx >= len(call.Call.Args) {
+				return
+			}
+			n++
+			arg := stripConv(call.Call.Args[idx])
+			ok2 := false
+			fromReader := func(v ssa.Value) bool {
+				ex, isEx := v.(*ssa.Extract)
+				if !isEx {
+					return false
+				}
+				kc, isCall := ex.Tuple.(*ssa.Call)
+				return isCall && kc.Call.StaticCallee() != nil && c.isModuleFunc(kc.Call.StaticCallee())
+			}
+			switch x := arg.(type) {
+			case *ssa.Extract:
+				ok2 = fromReader(x)
+			case *ssa.UnOp:
+				if fa, isFA := x.X.(*ssa.FieldAddr); isFA && x.Op == token.MUL && fieldName(fa.X.Type(), fa.Field) == "PrivateKey" {
+					ok2 = fromReader(fa.X)
+				}
+			}
+			r.Check(ok2, "K-signer-entity", fmt.Sprintf("%s: the key handed to %s is the one the key reader returned", c.funcKey(fn), o.Name()), c.instrPos(call),
+				"the signer is "+shorten(valueExpr(c, arg, 0), 80)+", not the entity returned by the module's key reader (or its primary key): a key chosen here has not passed the reader's usage checks (an encryption subkey that can sign algorithmically yields a signature no verifier accepts)")
+		})
+	}
+	r.Floor("K-signer-entity", n, 2)
+}
+
+// checkFailureBuiltFresh (E4-fresh): the typed failure a signing path returns
+// wraps the error that occurred - it is built there. A failure taken out of
+// the chain with errors.As and returned in place of the error drops every
+// wrapper above it, the signer's own error type included.
+func checkFailureBuiltFresh(c *Ctx, r *Report) {
+	n := 0
+	for _, fn := range c.ModFuncs {
+		k := 0
+		forEachInstr(fn, func(in ssa.Instruction) {
+			call, ok := in.(*ssa.Call)
+			if !ok || !calleeIs(call, "errors", "", "As") || len(call.Call.Args) < 2 {
+				return
+			}
+			tgt := stripIface(call.Call.Args[1])
+			al, isAl := tgt.(*ssa.Alloc)
+			if !isAl || !isPtrToNamed(derefType(al.Type()), modPath, "ErrSigningFailure") {
+				return
+			}
+			n++
+			// a load of the target that reaches a return
+			reaches := false
+			var follow func(v ssa.Value, d int)
+			follow = func(v ssa.Value, d int) {
+				if d > 4 || v.Referrers() == nil {
+					return
+				}
+				for _, ref := range *v.Referrers() {
+					switch x := ref.(type) {
+					case *ssa.Return:
+						reaches = true
+					case *ssa.MakeInterface:
+						follow(x, d+1)
+					case *ssa.Phi:
+						follow(x, d+1)
+					case *ssa.ChangeInterface:
+						follow(x, d+1)
+					}
+				}
+			}
+			for _, ref := range *al.Referrers() {
+				if ld, isLd := ref.(*ssa.UnOp); isLd && ld.Op == token.MUL {
+					follow(ld, 0)
+				}
+			}
+			k++
+			r.Check(!reaches, "E4-fresh", fmt.Sprintf("%s: failure found with errors.As#%d is not returned in place of the error", c.funcKey(fn), k), c.instrPos(call),
+				"the *ErrSigningFailure extracted from the chain is returned instead of the error it was found in: every wrapper above it - the signing callback's own error type - is no longer in the chain errors.Is / errors.As see")
+		})
+	}
+	r.Count("errors_as_on_signing_failure", n)
+	if n == 0 {
+		r.Pass("E4-fresh", "no signing failure is extracted from an error chain in the module", "-", "errors.As with a *ErrSigningFailure target: none")
+	}
 }
